@@ -10,9 +10,9 @@ import itertools
 
 THROW_MAGIC = 3735928559     # El's converting constructor throws on this argument (coq: throw_magic)
 
-KINDS = {"opt": "FMC", "exp": "FMC", "var": "FMC", "box": "FMC", "uptr": "F", "umem": "F", "tup": "FMC"}
+KINDS = {"opt": "FMC", "exp": "FMC", "var": "FMC", "box": "FMC", "uptr": "F", "uptrre": "F", "umem": "F", "tup": "FMC"}
 NEEDS_COPY = {"opt": {"newcval", "newcopy", "assign"}, "exp": {"newcopy", "assign"}, "var": {"newcopy", "assign"},
-              "box": set(), "uptr": set(), "umem": set()}
+              "box": set(), "uptr": set(), "uptrre": set(), "umem": set()}
 
 def allowed(ty, kind, op, exp_copy_assign=True):
     name = op.split()[0]
@@ -71,7 +71,7 @@ def alphabet(ty, kind, vs=(0, 1), core=False, exp_copy_assign=True):
                 ops += ["construct_with %d %d" % (i, THROW_MAGIC), "construct_with %d 6" % i, "arrow %d" % i, "deref %d" % i, "valid %d" % i, "bool %d" % i]
         # "del" of an initialized box is outside the documented use (leaks by design); the generator issues
         # del only on variable 1 after a destruct
-    elif ty == "uptr":
+    elif ty in ("uptr", "uptrre"):
         for i in vs:
             ops += ["new %d" % i, "make %d 5" % i, "reset %d" % i, "resetnew %d 6" % i, "release %d" % i, "del %d" % i, "get %d" % i]
             if not core:
@@ -101,7 +101,7 @@ def var_states(ty):
         return {"dead": [], "empty": ["new %d"], "alt0": ["newval %d 0 1%d"], "alt1": ["newval %d 1 1%d"], "alt2": ["newval %d 2 1%d"]}
     if ty == "box":
         return {"dead": [], "empty": ["new %d"], "full": ["new %d", "init %d 1%d"]}
-    if ty == "uptr":
+    if ty in ("uptr", "uptrre"):
         return {"dead": [], "null": ["new %d"], "owning": ["make %d 1%d"]}
     if ty == "umem":
         return {"dead": [], "null": ["new %d"], "owning": ["alloc %d 16"]}
@@ -170,7 +170,7 @@ def gen_case(rng, ty, kind, n_ops, exp_copy_assign=True):
         # accessors that would stop in the assertion hook: rarely
         stops = False
         if name in ("get", "cget", "arrow", "value", "deref", "unwrap", "cvalue", "apply") and st[i] == "n":
-            stops = ty not in ("uptr",) or name == "deref"
+            stops = ty not in ("uptr", "uptrre") or name == "deref"
         if ty == "exp" and name == "error" and st[i] == "s":
             stops = True
         if ty == "box" and name in ("init", "construct_with") and st[i] == "s":
@@ -204,7 +204,7 @@ def gen_case(rng, ty, kind, n_ops, exp_copy_assign=True):
             if name == "del":
                 st[i] = "-"
             elif name in ("assign", "massign") and j is not None and st[j] != "-":
-                if ty in ("uptr",):
+                if ty in ("uptr", "uptrre"):
                     st[i], st[j] = st[j], st[i]
                 elif ty == "umem":
                     if i != j:
@@ -217,7 +217,7 @@ def gen_case(rng, ty, kind, n_ops, exp_copy_assign=True):
                 st[i] = "s"
             elif name in ("reset", "destruct", "release"):
                 st[i] = "n"
-        if name == "newmove" and ty in ("uptr", "umem") and j is not None and st[j] != "-" and st[i] != "-":
+        if name == "newmove" and ty in ("uptr", "uptrre", "umem") and j is not None and st[j] != "-" and st[i] != "-":
             st[j] = "n"
     if ty == "var":
         lines += ["tag 0", "tag 1", "tag 2"]
@@ -267,6 +267,9 @@ def corpus(exp_copy_assign=True):
     cs.append(("corpus-opt-emplace-throws", ["type opt F", "newconv 0 5", "emplace 0 %d" % THROW_MAGIC, "has 0", "emplace 0 7", "get 0"]))
     cs.append(("corpus-var-emplace-throws", ["type var F", "newval 0 1 5", "emplace 0 2 %d" % THROW_MAGIC, "tag 0", "emplace 0 1 %d" % THROW_MAGIC, "emplace 0 0 3"]))
     cs.append(("corpus-box-init-throws", ["type box F", "new 0", "init 0 %d" % THROW_MAGIC, "valid 0", "construct_with 0 %d" % THROW_MAGIC, "init 0 4", "get 0"]))
+    # seeded change caught in round 2 (follow-up 2): unique_ptr::reset destroys the old pointee before storing the new pointer
+    cs.append(("corpus-uptr-reentrant-reset", ["type uptrre F", "make 0 5", "reset 0", "make 1 6", "resetnew 1 7", "get 1",
+                                                 "make 2 8", "massign 0 2", "reset 2", "reset 0", "resetnew 1 9", "del 1"]))
     cs.append(("corpus-thr-sweep", ["type thr F", "sweep 5 6"]))
     # seeded change caught in round 2: manual_box::initialize with T{args...} (vector<int>(3, 7) became {3, 7})
     cs.append(("corpus-il-initialize-braces", ["type il F", "fwd 3 7", "one 3"]))
